@@ -42,6 +42,13 @@ CLAIMED['C17'] = ('bounded symbolic execution of clang LLVM IR of parameter pack
 CLAIMED['C05'] = ('bounded symbolic execution of clang LLVM IR of the converting constructors (heap, nd_map closures) + z3',
     'All ordered pairs of the four storage orders, every extent vector within the bound, all stored bit patterns, symbolic probe coordinate: same configuration and values, source unchanged, own storage, round trip, no leak; whole-stack conversions across interpolators. CUDA device arrays are not covered (no CUDA headers in the image).', '3.C05')
 
+CLAIMED['C06'] = ('bounded symbolic execution of clang LLVM IR of dump/load over a modelled byte stream + z3 (bit-vectors)',
+    'For every serialisable layer (catalogue of 13 stacks plus 8 per-layer stacks over a token probe), all configuration values and stored bit patterns, array length up to the bound: load(dump(f)) is bit-identical, the reader consumes exactly the written bytes, and the re-dump is byte-identical.', '3.C06')
+CLAIMED['C07'] = ('bounded symbolic execution of clang LLVM IR of dump/load + z3, differential against an independent reference serialiser of the pinned byte grammar; IEEE FP theory for narrowing',
+    'dump(f) equals the pinned grammar byte for byte and grammar files load back to the same state (so a consistent writer+reader change is caught); cross-type loads across interpolators and float/double storage: widening exact, narrowing round-to-nearest (independent neighbour oracle in the thorough tier).', '3.C07')
+CLAIMED['C08'] = ('bounded symbolic execution of clang LLVM IR of the loaders over a modelled stream with symbolic truncation point, symbolic replaced word and symbolic failure index + z3; uninitialised-data dependence queries',
+    'Every proper prefix of every dump in the C06 state space, every altered header/footer/tag/width word with any replacement value, incompatible stack pairs, and a stream failing from the n-th read for every n: an exception is raised on every feasible path; no field, abort, memory error, hang or decision on uninitialised bytes. NDEBUG and assertion-enabled IR.', '3.C08')
+
 NA = {
     'C13': 'decided by the C++ type checker (overload resolution, constraints, template instantiation): there is no IR to execute and no SMT encoding of C++ semantic analysis within reach; enumerating and compiling stacks would be a different technique (DESIGN.md section 5)',
 }
